@@ -17,8 +17,8 @@ ATOMS = ['a', 'b']
 
 def items(ctx, un=gen.BODY_UN, bi=gen.BODY_BIN, n=None, depth=None, salt='items'):
     rng = ctx.rng(salt)
-    n = n or (500 if ctx.quick else 4000)
-    depth = depth or (3 if ctx.quick else 5)
+    n = n or (500 if ctx.quick else 1500)
+    depth = depth or (3 if ctx.quick else 4)
     out = []
     for i in range(n):
         atoms = ATOMS + (['c'] if rng.random() < 0.3 else [])
@@ -31,7 +31,7 @@ def items(ctx, un=gen.BODY_UN, bi=gen.BODY_BIN, n=None, depth=None, salt='items'
 
 def constraint_programs(ctx, n=None):
     rng = ctx.rng('constraints')
-    n = n or (200 if ctx.quick else 2000)
+    n = n or (200 if ctx.quick else 800)
     out = []
     for i in range(n):
         atoms = ATOMS
@@ -106,7 +106,7 @@ def shrink_value(ctx, c, fs, H):
 
 
 def run(ctx):
-    H = 3 if ctx.quick else 5
+    H = 3 if ctx.quick else 4
     its = items(ctx)
     recs = s4.value_check(ctx, its, H)
     cex = value_cex(recs, its)
@@ -117,7 +117,7 @@ def run(ctx):
         if r['status'] in ('differ', 'implerror'):
             cex.insert(0, value_cex([r], [(c, fs)])[0])
     progs = constraint_programs(ctx)
-    maxbits = 12 if ctx.quick else 15
+    maxbits = 12 if ctx.quick else 13
     recs2 = s4.compare(ctx, [p for _, p in progs], 3 if ctx.quick else 4, maxbits)
     res2 = c01.summarize(ctx, progs, recs2, 3 if ctx.quick else 4, maxbits, 'C03')
     ops = {}
@@ -135,7 +135,7 @@ def run(ctx):
     cov = {'evaluations': len(recs) + len(recs2), 'distinct_nontrivial': nontriv + res2['coverage']['distinct_nontrivial'],
            'rule': 'witness programs: random context program over a,b(,c) + 1-4 witness rules over formulas of depth <= %d drawn with a shared sub-formula pool; horizons 0..%d '
                    'of one incremental run; every state of every answer set is compared with TEL.lsat; non-trivial = a program whose witness values are neither all true nor all false; '
-                   'constraint programs: %s' % (3 if ctx.quick else 5, H, res2['coverage']['rule']),
+                   'constraint programs: %s' % (3 if ctx.quick else 4, H, res2['coverage']['rule']),
            'answer_sets_checked': sum(r['models'] for r in recs), 'values_checked': sum(r['values'] for r in recs),
            'operator_histogram': dict(sorted(ops.items())), 'shared_subformula_occurrences': shared, 'status_histogram': stat,
            'constraint_status_histogram': res2['coverage']['status_histogram'],
